@@ -15,6 +15,8 @@
   operations — i.e. every operation sequence in every grouping into conjunctions.
 -/
 import PrologVerif.Proofs.StreamOps
+import PrologVerif.Proofs.StreamSeg
+import PrologVerif.Spec.CursorSeg
 import PrologVerif.Proofs.StreamOut
 import PrologVerif.Model.ClauseScanner
 namespace PrologVerif.C19
@@ -62,7 +64,7 @@ theorem C19_refines_cursor (c : Cfg) (hv : c.Valid) (sc : Scanner σ) (prog : Li
       (runProg c sc prog Stream.init).2.position = (cu.idx : Int) ∧
       ((runProg c sc prog Stream.init).2.endOfStream = .past ↔ cu.delivered = true) ∧
       ((runProg c sc prog Stream.init).2.endOfStream ≠ .not → cu.idx = c.src.length) := by
-  obtain ⟨cu, hj, hs⟩ := runProg_sim hv sc prog (sim_init c)
+  obtain ⟨cu, hj, hs⟩ := runProg_sim hv sc prog (sim_init c hv)
   exact ⟨cu, hj, hs.pos_eq, hs.past_iff, hs.end_of⟩
 
 /-- **C19_bytes_in_order**: "nothing lost, nothing delivered twice" spelled out for a binary stream.
@@ -76,7 +78,7 @@ theorem C19_bytes_in_order (c : Cfg) (hv : c.Valid) (hb : c.typ = .binary) (sc :
       c.src.take (gotBytes prog (runProg c sc prog Stream.init).1).length ∧
     (runProg c sc prog Stream.init).2.position =
       ((gotBytes prog (runProg c sc prog Stream.init).1).length : Int) := by
-  obtain ⟨cu, hj, hs⟩ := runProg_sim hv sc prog (sim_init c)
+  obtain ⟨cu, hj, hs⟩ := runProg_sim hv sc prog (sim_init c hv)
   obtain ⟨_, hgot⟩ := judge_bytes c.spec hb sc prog _ {} cu hj
   have hle := hs.idx_le
   have hlen : (gotBytes prog (runProg c sc prog Stream.init).1).length = cu.idx := by
@@ -98,7 +100,7 @@ theorem C19_chars_in_order (c : Cfg) (hv : c.Valid) (ht : c.typ = .text) (runes 
       runes.take (gotChars prog (runProg c sc prog Stream.init).1).length ∧
     (runProg c sc prog Stream.init).2.position =
       ((encAll (gotChars prog (runProg c sc prog Stream.init).1)).length : Int) := by
-  obtain ⟨cu, hj, hs⟩ := runProg_sim hv sc prog (sim_init c)
+  obtain ⟨cu, hj, hs⟩ := runProg_sim hv sc prog (sim_init c hv)
   obtain ⟨k', _, hk', hidx, hgot⟩ :=
     judge_chars c.spec ht runes hg hsrc sc prog _ {} cu 0 hnr (Nat.zero_le _) (by simp [encAll]) hj
   simp only [List.drop_zero, Nat.sub_zero] at hgot
@@ -113,7 +115,7 @@ theorem C19_chars_in_order (c : Cfg) (hv : c.Valid) (ht : c.typ = .text) (runes 
 theorem C19_reachable_sim {c : Cfg} (hv : c.Valid) {sc : Scanner σ} {s : Stream} (h : Reachable c sc s) :
     ∃ cu, Sim c s cu := by
   obtain ⟨prog, rfl⟩ := h
-  obtain ⟨cu, _, hs⟩ := runProg_sim hv sc prog (sim_init c)
+  obtain ⟨cu, _, hs⟩ := runProg_sim hv sc prog (sim_init c hv)
   exact ⟨cu, hs⟩
 
 /-- **C19_no_internal_error**: on a reachable stream no operation ends in the catch-all error of the
@@ -329,6 +331,71 @@ theorem C19_read_error_consumes_what_it_read (c : Cfg) (hv : c.Valid) (sc : Scan
   · rw [← hcu'', hg]
   · rw [← hcu'', hp]
 
+/-! ### sources that go on after an end of file (eof_action(reset) over a terminal-like reader) -/
+
+/-- **C19_reset_segments_statement** (open): for every source that goes on after its ends of file (any list of
+    segments, any chunking, last bytes with or without io.EOF), eof_action reset or error, any term reader and
+    every sequence of queries, the model is accepted by the segment specification Spec/CursorSeg.lean
+    (`at` only when the current segment has no unread byte, reset moves to the next segment).  Checked by
+    the correspondence stream c19.ops (rd=seg) on model and implementation; proved below for the buffer. -/
+def C19_reset_segments_statement : Prop :=
+  ∀ (σ : Type) (sc : Scanner σ) (c : Cfg), MarksOk c → c.rd.fileSize = none → c.action ≠ .eofCode →
+    ∀ prog : List (List Op),
+      (SegSpec.judge { bytes := c.src, typ := c.typ, action := c.action, marks := c.rd.marks } sc prog
+        (runProg c sc prog Stream.init).1 {}).isSome = true
+
+/-- **C19_reset_segments_partial**: the buffer level of it, for ALL segment lists (ascending marks), all
+    chunkings and ALL sequences of the buffer operations a stream performs — reads, unreads and resets in
+    any order, across any number of ends of file:
+    (1) the buffer never fetches from behind an end-of-file mark the source has not reported yet;
+    (2) "the source's last Read reported io.EOF" — the fact checkEOS turns into end_of_stream(at) when the
+        buffer is empty — holds only while the buffer has fetched exactly up to the end of file that was
+        reported; so whenever checkEOS's test `Buffered() == 0 && ReadErr() == io.EOF` succeeds, the cursor
+        stands exactly at that end of file: no byte of the segment that ended is unread, and (by (1)) nothing
+        of the next segment is in the buffer.  In particular a reset clears the recorded error: `at` is never
+        reported because an EARLIER segment ended. -/
+theorem C19_reset_segments_partial (c : Cfg) (hm : MarksOk c) (ops : List BufOp) :
+    SegInv c (ops.foldl (fun b o => applyBufOp c o b) {}) ∧
+    ((ops.foldl (fun b o => applyBufOp c o b) {}).buffered = 0 →
+     (ops.foldl (fun b o => applyBufOp c o b) {}).rdErr = true →
+      (ops.foldl (fun b o => applyBufOp c o b) {}).cur = (ops.foldl (fun b o => applyBufOp c o b) {}).fetched ∧
+      ((1 ≤ (ops.foldl (fun b o => applyBufOp c o b) {}).eofs ∧
+          c.rd.marks[(ops.foldl (fun b o => applyBufOp c o b) {}).eofs - 1]? =
+            some (ops.foldl (fun b o => applyBufOp c o b) {}).cur) ∨
+       ((ops.foldl (fun b o => applyBufOp c o b) {}).eofs = c.rd.marks.length ∧
+          (ops.foldl (fun b o => applyBufOp c o b) {}).cur = c.src.length))) := by
+  have hinit : SegInv c ({} : Buf) := by
+    refine ⟨Nat.le_refl _, Nat.zero_le _, Nat.zero_le _, ?_, ?_⟩ <;> (intro hh; exact absurd hh (by decide))
+  have key : ∀ (ops : List BufOp) (b : Buf), SegInv c b → SegInv c (ops.foldl (fun b o => applyBufOp c o b) b) := by
+    intro ops
+    induction ops with
+    | nil => intro b h; exact h
+    | cons o os ih =>
+      intro b h
+      apply ih
+      cases o with
+      | readRune => exact (bufReadRune_seg_inv hm h).1
+      | readByte => exact (bufReadByte_seg_inv hm h).1
+      | unreadRune =>
+        simp only [applyBufOp]
+        cases hu : bufUnreadRune b with
+        | none => exact h
+        | some b' => exact bufUnreadRune_seg_inv h hu
+      | unreadByte =>
+        simp only [applyBufOp]
+        cases hu : bufUnreadByte b with
+        | none => exact h
+        | some b' => exact bufUnreadByte_seg_inv h hu
+      | reset => exact reset_seg_inv h
+  have hfin := key ops {} hinit
+  exact ⟨hfin, fun he hr => at_means_segment_end hfin he hr⟩
+
+/-- a segmented source: `ab`, end of file, `cd`, end of file, `e` -/
+example : MarksOk { src := [97, 98, 99, 100, 101],
+                    rd := { chunk := fun _ => 1, eofWithData := false, fileSize := none, marks := [2, 4] },
+                    typ := .text, action := .reset } := by
+  refine ⟨by decide, by decide, by decide⟩
+
 /-! ### UTF-8 -/
 
 /-- **C19_utf8**: on a reachable text stream that is not past its end,
@@ -446,8 +513,8 @@ theorem C19_deferred_unread_witness :
   revert this
   decide +kernel
 
-example : exCfg.Valid := by intro n h; simp [exCfg] at h
-example : exFile.Valid := by intro n h; simp [exFile] at h ⊢; omega
+example : exCfg.Valid := ⟨by intro n h; simp [exCfg] at h, rfl⟩
+example : exFile.Valid := ⟨by intro n h; simp [exFile] at h ⊢; omega, rfl⟩
 
 /-- one conjunction `peek_char, peek_char, get_char, get_char, get_char` on `é1` -/
 example : (runConj exCfg Clause.scanner [.peekChar, .peekChar, .getChar, .getChar, .getChar] Stream.init).1 =
